@@ -89,6 +89,41 @@ pub fn run(ctx: &mut Ctx) {
             ctx.check("merge:U", &al::obj1("merge", l[0].clone()), &null);
         }
     }
+    // size probes: many operands, long arrays, the needle at every position class
+    for n in al::size_classes(ctx.tier_thorough) {
+        if !ctx.mine() {
+            continue;
+        }
+        let ops_: Vec<Value> = (0..n).map(|i| match i % 4 { 0 => json!([i, [i]]), 1 => json!(i), 2 => json!([]), _ => json!(null) }).collect();
+        let r = op("merge", ops_.clone());
+        let o = ctx.check("merge:size-probe", &r, &null);
+        if let Some(Value::Array(out)) = o.ok() {
+            let want: usize = ops_.iter().map(|x| x.as_array().map(|y| y.len()).unwrap_or(1)).sum();
+            if out.len() != want {
+                ctx.law_fail("law:merge-length", &r, &null, format!("length {}", want), format!("length {}", out.len()));
+            }
+        }
+        let long: Vec<Value> = (0..n).map(|i| json!(i)).collect();
+        ctx.check("merge:size-probe:long-arrays", &json!({"merge": [long, [long], {"var": "x"}]}), &json!({"x": long}));
+        let nn = n as i64;
+        for i in [0i64, 1, nn / 2, nn - 1, nn, -1] {
+            ctx.edge();
+            ctx.check("in:size-probe:array", &json!({"in": [i, long]}), &null);
+            ctx.check("in:size-probe:array:float", &json!({"in": [i as f64, {"var": "h"}]}), &json!({"h": long}));
+            ctx.check("in:size-probe:nested", &json!({"in": [[i], {"var": "h"}]}), &json!({"h": long.iter().map(|v| json!([v])).collect::<Vec<_>>()}));
+        }
+        let st: String = (0..n).map(|i| ['a', 'é', '水', '😀', 'b'][i % 5]).collect();
+        let chars: Vec<char> = st.chars().collect();
+        for i in [0usize, 1, n / 2, n.saturating_sub(2), n.saturating_sub(1)] {
+            if i + 1 <= chars.len() {
+                ctx.edge();
+                let needle: String = chars[i..(i + 2).min(chars.len())].iter().collect();
+                ctx.check("in:size-probe:substring", &json!({"in": [needle, st]}), &null);
+                let not_there: String = format!("{}Z", chars[i]);
+                ctx.check("in:size-probe:substring:absent", &json!({"in": [not_there, st]}), &null);
+            }
+        }
+    }
     // merge of data-carried markers must keep them inert
     if ctx.mine() {
         let d = json!({"m": {"var": "s"}, "arr": [{"var": "s"}, [{"+": ["x"]}]], "s": "SECRET"});
